@@ -468,7 +468,7 @@ theorem copyNodeUp_spec (p : Path) (s : St) (hc : Consistent s) :
         | none => have := no_upper_not_inUpper hc h hm; rw [this] at hmu; cases hmu
         | some L => rfl
       exact ⟨hc, ⟨m, hm, hmu⟩, rfl, hu, fun _ _ => rfl, fun p' m0 h => ⟨m0, h, rfl, rfl⟩, StatKept.refl s,
-        ImgKept.refl hc hm hmu⟩
+        ImgKept.refl_anc hc hm hmu⟩
     · simp only [hmu, Bool.false_eq_true, if_false]
       simp only [Bool.not_eq_true] at hmu
       have hst := nodeStat_eq hc hm
